@@ -6,7 +6,7 @@
                                       in the order in which the code performs them.
    Nothing is proved here (see ValidateProofs.v).  The validators are hand-written summaries of
    the Python code; what ties them to the code is the malformed-stream correspondence
-   (harness/engines/c19.py).  The model follows /repo/flowpaths at 65c87ad (after the repairs listed in ValidateOld.v,
+   (harness/engines/c19.py).  The model follows /repo/flowpaths at 65c87ad (003f186 and the repairs listed in ValidateOld.v,
    which keeps the model of the code before them). *)
 From Coq Require Import List Bool ZArith QArith Arith.
 Import ListNotations.
@@ -14,8 +14,8 @@ Local Close Scope Q_scope.
 Local Open Scope bool_scope.
 
 (* ------------------------------------------------------------------ outcomes *)
-Inductive exn := EType | EOverflow | ESolverAPI.
-(* EType: a non-iterable item in an edge-list constraint (node mode); EOverflow / ESolverAPI: int(-inf) resp. the generic
+Inductive exn := EOverflow | ESolverAPI.
+(* EOverflow / ESolverAPI: int(-inf) resp. the generic
    Exception("Failed to add columns") when every weighted element is ignored (DESIGN #24) *)
 Inductive outcome :=
 | Accept                 (* no exception at construction or in solve(); solved-or-not is the solver's business *)
@@ -127,7 +127,7 @@ Fixpoint first_bad_edge_item (l : list item) : step :=       (* _get_expanded_su
     | IPair => if it_in_graph it then first_bad_edge_item r else Some VE
     | ITriple => Some VE                       (* EdgeView.__contains__: `u, v = e` -> ValueError (too many values) *)
     | IStr => Some VE                          (* unpacks or not, either way "not in the original graph" / ValueError *)
-    | IInt => Some (RaiseOther EType)          (* cannot unpack non-iterable *)
+    | IInt => Some VE                          (* 003f186: the shape of the item is tested before `edge not in G.edges` *)
     end
   end.
 Definition all_items (cs : list constr) := flat_map c_items cs.
